@@ -145,7 +145,11 @@ impl Sink {
         self.after_forget = false;
         self.stats.seqs += 1;
         *self.stats.hashers.entry(hkind.name().to_owned()).or_default() += 1;
-        let l = format!("# seq {} hasher={} {}", self.seq_no, hkind.name(), what);
+        let l = if types::TRACK_K && types::TRACK_V {
+            format!("# seq {} hasher={} {}", self.seq_no, hkind.name(), what)
+        } else {
+            format!("# seq {} hasher={} {} types={}", self.seq_no, hkind.name(), what, types::types_name())
+        };
         self.raw(&l, "#");
         World::new(hkind)
     }
@@ -627,6 +631,67 @@ fn sliding_window(sink: &mut Sink, rng: &mut Rng, shard: (u64, u64)) {
     }
 }
 
+/// Tombstone-heavy tables: a table created for `cap` entries is filled completely with consecutive
+/// keys (identity hasher: one long run of occupied buckets), then all but `keep` entries are removed
+/// (each removal inside the run leaves a tombstone, so `growth_left` stays 0 while `len` drops), then
+/// one capacity-sensitive operation runs: an insertion of a new key (automatic growth from a table
+/// whose reported capacity is far below its bucket count), `shrink_to` / `shrink_to_fit` with
+/// targets around the current length and capacity, `reserve`, `try_insert`, `clone`.
+fn tombstones(sink: &mut Sink, rng: &mut Rng, shard: (u64, u64)) {
+    let mut idx = 0u64;
+    for cap in [28usize, 56, 112] {
+        for keep in [0usize, 1, 3, 5, 7, 10, 12, 14, 20, 27, 28, 40, 56] {
+            if keep >= cap {
+                continue;
+            }
+            for fin in 0..9usize {
+                for hk in [HKind::Ident, HKind::Mix] {
+                    idx += 1;
+                    if idx % shard.1 != shard.0 {
+                        continue;
+                    }
+                    let mut w = sink.begin_seq(hk, "tombstones");
+                    sink.step(&mut w, &gen::mk_line(true, Op::New { c: 0, max: usize::MAX, cap: Some(cap) }));
+                    for i in 0..cap {
+                        let kt = types::peek_next_tok();
+                        sink.step(&mut w, &gen::mk_line(false, Op::On { c: 0, op: OpKind::Ins { id: i as u32, kh: 0, kt, vh: 0, vt: kt + 1 } }));
+                    }
+                    // remove from the front, the back or the middle of the run
+                    let from = match rng.below(3) { 0 => 0, 1 => keep, _ => keep / 2 };
+                    let mut removed = 0;
+                    let mut i = from;
+                    while removed < cap - keep {
+                        let id = (i % cap) as u32;
+                        sink.step(&mut w, &gen::mk_line(false, Op::On { c: 0, op: OpKind::Rm(id) }));
+                        removed += 1;
+                        i += 1;
+                    }
+                    let fresh = (cap + 1000) as u32;
+                    let kt = types::peek_next_tok();
+                    let ops: Vec<OpKind> = match fin {
+                        0 => vec![OpKind::Ins { id: fresh, kh: 0, kt, vh: 0, vt: kt + 1 }],
+                        1 => vec![OpKind::ShrinkFit],
+                        2 => vec![OpKind::Shrink(keep + 3)],
+                        3 => vec![OpKind::Shrink(15)],
+                        4 => vec![OpKind::Shrink(2 * keep + 1)],
+                        5 => vec![OpKind::Reserve(1)],
+                        6 => vec![OpKind::TIns { id: fresh, kh: 0, kt, vh: 0, vt: kt + 1 }],
+                        7 => vec![OpKind::Shrink(cap / 2 - 1), OpKind::Ins { id: fresh, kh: 0, kt, vh: 0, vt: kt + 1 }],
+                        _ => vec![OpKind::TryReserve(keep / 2 + 1), OpKind::ShrinkFit],
+                    };
+                    for op in ops {
+                        sink.step(&mut w, &gen::mk_line(true, Op::On { c: 0, op }));
+                    }
+                    // and one more insertion afterwards
+                    let kt = types::peek_next_tok();
+                    sink.step(&mut w, &gen::mk_line(true, Op::On { c: 0, op: OpKind::Ins { id: fresh + 1, kh: 0, kt, vh: 0, vt: kt + 1 } }));
+                    sink.end_seq(w);
+                }
+            }
+        }
+    }
+}
+
 /// Systematic panic injection: for a set of small states, every operation, every callback kind and
 /// every index n up to the number of callbacks the operation makes without a panic.
 fn panic_systematic(sink: &mut Sink, rng: &mut Rng, shard: (u64, u64), rounds: usize) {
@@ -878,6 +943,7 @@ fn main() {
         }
         "capx" => capacity_extremes(&mut sink, &mut rng),
         "slide" => sliding_window(&mut sink, &mut rng, shard),
+        "tomb" => tombstones(&mut sink, &mut rng, shard),
         "panicx" => panic_systematic(&mut sink, &mut rng, shard, get("--rounds").and_then(|s| s.parse().ok()).unwrap_or(1)),
         "exh" => exhaustive(&mut sink, depth, shard),
         name => {
